@@ -37,6 +37,10 @@ type RunSpec struct {
 	ShowDup bool   `json:"show_duplicates"`
 	Workers int    `json:"workers"` // 0 = flag absent
 	Equals  bool   `json:"equals"`  // --fail-on=F instead of --fail-on F
+	// TeamCity replaces the console reporter by the TeamCity one (which never opens the
+	// rule files): the reference run whose --json report stands in for runs of the same
+	// case that completed linting but whose console reporter failed.
+	TeamCity bool `json:"teamcity,omitempty"`
 }
 
 type Case struct {
@@ -55,6 +59,7 @@ type Outcome struct {
 	Counts    [4]int // reports per severity rank
 	Unknown   int    // reports with a severity the JSON reader does not know
 	Threshold int    // rank of the effective fail-on
+	Borrowed  int    // >= 0: linting completed but reporting failed; Counts come from that run of the same case
 }
 
 func (o Outcome) sevSet() string {
@@ -134,6 +139,9 @@ func (c Case) args(r RunSpec, jsonPath string) []string {
 	}
 	if r.MinSev != "" && c.Kind == "lint" {
 		a = append(a, "--min-severity", r.MinSev)
+	}
+	if r.TeamCity {
+		a = append(a, "--teamcity")
 	}
 	a = append(a, "--json", jsonPath)
 	if c.Kind == "lint" {
@@ -243,7 +251,7 @@ func execute(c Case, bin string) ([]Outcome, []RunResult, error) {
 		if res.TimedOut || res.StartErr != nil {
 			return nil, results, fmt.Errorf("%w: run %d: timeout=%v err=%v", errInfra, i, res.TimedOut, res.StartErr)
 		}
-		o := Outcome{Exit: res.Exit, Threshold: FlagRank(effFailOn(c.Runs[i]))}
+		o := Outcome{Exit: res.Exit, Threshold: FlagRank(effFailOn(c.Runs[i])), Borrowed: -1}
 		if !res.JSONOK {
 			o.Discard = classifyDiscard(res)
 			outs[i] = o
@@ -258,6 +266,24 @@ func execute(c Case, bin string) ([]Outcome, []RunResult, error) {
 			}
 		}
 		outs[i] = o
+	}
+	// A run that got as far as submitting reports completed linting: the report set is a
+	// function of the input only (the JSON reporter ignores every flag), so it is taken from
+	// a run of the same case that did write its JSON (preferably the --teamcity one).
+	ref := -1
+	for i, o := range outs {
+		if o.Completed && o.Unknown == 0 && (ref < 0 || (c.Runs[i].TeamCity && !c.Runs[ref].TeamCity)) {
+			ref = i
+		}
+	}
+	if ref >= 0 {
+		for i := range outs {
+			if !outs[i].Completed && outs[i].Discard == "reporter-error" {
+				outs[i].Completed = true
+				outs[i].Counts = outs[ref].Counts
+				outs[i].Borrowed = ref
+			}
+		}
 	}
 	return outs, results, nil
 }
@@ -285,8 +311,12 @@ func oracle(c Case, outs []Outcome, results []RunResult) error {
 		want := o.hasAtOrAbove()
 		got := o.Exit != 0
 		if want != got {
-			return fmt.Errorf("run %d (%s fail-on=%q min-severity=%q show-duplicates=%v workers=%d): exit status %d but the run's own JSON report has %d Information, %d Warning, %d Bug, %d Fatal problem(s) (threshold %s)\n--- stderr tail ---\n%s",
-				i, c.Kind, r.FailOn, r.MinSev, r.ShowDup, r.Workers, o.Exit, o.Counts[0], o.Counts[1], o.Counts[2], o.Counts[3], effFailOn(r), tail(i))
+			src := "the run's own JSON report"
+			if o.Borrowed >= 0 {
+				src = fmt.Sprintf("linting completed but a reporter failed; the JSON report of run %d of the same input", o.Borrowed)
+			}
+			return fmt.Errorf("run %d (%s fail-on=%q min-severity=%q show-duplicates=%v workers=%d teamcity=%v): exit status %d but %s has %d Information, %d Warning, %d Bug, %d Fatal problem(s) (threshold %s)\n--- stderr tail ---\n%s",
+				i, c.Kind, r.FailOn, r.MinSev, r.ShowDup, r.Workers, r.TeamCity, o.Exit, src, o.Counts[0], o.Counts[1], o.Counts[2], o.Counts[3], effFailOn(r), tail(i))
 		}
 		decided = append(decided, dec{i, o.Threshold, got})
 	}
@@ -335,6 +365,11 @@ func genRuns(t *rapid.T, lint bool) []RunSpec {
 	f := rapid.SampledFrom(flagSev).Draw(t, "extra.failon")
 	for i := 0; i < extra; i++ {
 		runs = append(runs, genRun(t, fmt.Sprintf("extra%d", i), f, lint))
+	}
+	if !lint || rapid.IntRange(0, 3).Draw(t, "teamcity") == 0 {
+		r := genRun(t, "tc", rapid.SampledFrom(flagSev).Draw(t, "tc.failon"), lint)
+		r.TeamCity = true
+		runs = append(runs, r)
 	}
 	if rapid.IntRange(0, 19).Draw(t, "badflag") == 0 {
 		r := genRun(t, "bad", "bug", lint)
@@ -395,9 +430,75 @@ func genCICase(t *rapid.T) Case {
 			c.Base = append(c.Base, f) // deleted on the branch
 		}
 	}
+	// whole files renamed on the branch (same content, other name)
+	for i, f := range c.Base {
+		if have[f.Name] && f.Symlink == "" && rapid.IntRange(0, 7).Draw(t, fmt.Sprintf("rename%d", i)) == 0 {
+			for j, bf := range c.Input.Files {
+				if bf.Name == f.Name {
+					c.Input.Files[j].Name = "moved/" + strings.ReplaceAll(f.Name, "/", "_")
+					c.Input.Files[j].Content = f.Content
+				}
+			}
+		}
+	}
+	depScenario(t, &c)
 	c.Offline = rapid.Bool().Draw(t, "offline")
 	c.Runs = genRuns(t, false)
 	return c
+}
+
+// depScenario adds a provider file (recording rules) and a user file (rules whose
+// expressions read them) and lets the branch delete the provider file, remove or
+// empty its rules, rename it, or delete both - the shapes in which rule/dependency
+// reports problems on paths that no longer exist.
+func depScenario(t *rapid.T, c *Case) {
+	kind := rapid.SampledFrom([]string{"none", "none", "delete-file", "delete-file", "delete-file", "remove-rule", "empty-rules", "rename", "delete-both", "delete-file-user-modified"}).Draw(t, "dep.kind")
+	if kind == "none" {
+		return
+	}
+	rec := rapid.SampledFrom([]string{"dep:up:sum", "dep:foo:rate5m"}).Draw(t, "dep.record")
+	nusers := rapid.IntRange(1, 3).Draw(t, "dep.nusers")
+	provider := func(withRec, withOther bool) string {
+		s := "groups:\n- name: provider\n  rules:"
+		if !withRec && !withOther {
+			return s + " []\n"
+		}
+		s += "\n"
+		if withOther {
+			s += "  - record: dep:other\n    expr: sum(bar)\n"
+		}
+		if withRec {
+			s += "  - record: " + rec + "\n    expr: sum(up)\n"
+		}
+		return s
+	}
+	user := func(extra string) string {
+		s := "groups:\n- name: users\n  rules:\n"
+		for i := 0; i < nusers; i++ {
+			s += fmt.Sprintf("  - alert: DepUser%d\n    expr: %s == %d\n%s    annotations:\n      summary: uses a recording rule\n", i, rec, i, extra)
+		}
+		return s
+	}
+	other := rapid.Bool().Draw(t, "dep.other")
+	pname, uname := "dep/provider.yml", "dep/user.yml"
+	if rapid.Bool().Draw(t, "dep.flat") {
+		pname, uname = "provider.yml", "user.yml"
+	}
+	c.Base = append(c.Base, FileSpec{Name: pname, Content: provider(true, other)}, FileSpec{Name: uname, Content: user("")})
+	switch kind {
+	case "delete-file":
+		c.Input.Files = append(c.Input.Files, FileSpec{Name: uname, Content: user("")})
+	case "delete-file-user-modified":
+		c.Input.Files = append(c.Input.Files, FileSpec{Name: uname, Content: user("    for: 5m\n")})
+	case "remove-rule":
+		c.Input.Files = append(c.Input.Files, FileSpec{Name: pname, Content: provider(false, true)}, FileSpec{Name: uname, Content: user("")})
+	case "empty-rules":
+		c.Input.Files = append(c.Input.Files, FileSpec{Name: pname, Content: provider(false, false)}, FileSpec{Name: uname, Content: user("")})
+	case "rename":
+		c.Input.Files = append(c.Input.Files, FileSpec{Name: "moved/" + strings.ReplaceAll(pname, "/", "_"), Content: provider(true, other)}, FileSpec{Name: uname, Content: user("")})
+	case "delete-both":
+	}
+	c.Input.Tags = append(c.Input.Tags, "dep:"+kind)
 }
 
 // ---------------------------------------------------------------------------
@@ -463,6 +564,17 @@ func runCase(rec *vstat.Recorder, c Case, bin string) error {
 				failed = 1
 			}
 			class := fmt.Sprintf("%s:fail-on=%s:sev=%s:fail=%d", c.Kind, orAbsent(r.FailOn), o.sevSet(), failed)
+			if o.Borrowed >= 0 {
+				rec.Count("runs_with_failed_reporter_judged_by_reference_run", 1)
+			}
+			if r.TeamCity {
+				rec.Count("teamcity_reference_runs", 1)
+			}
+			for _, tg := range c.Input.Tags {
+				if strings.HasPrefix(tg, "dep:") {
+					rec.Count("ci_scenario:"+tg, 1)
+				}
+			}
 			nontrivial := o.distinct() >= 2 && o.hasBelow()
 			rec.Count("min-severity="+orAbsent(r.MinSev), 1)
 			if r.ShowDup {
